@@ -58,6 +58,8 @@ from spyne.util.cdict import cdict
 
 _date_re = re.compile(DATE_PATTERN)
 _time_re = re.compile(TIME_PATTERN)
+_double_re = re.compile(r'^\s*([+-]?([0-9]+(\.[0-9]*)?|\.[0-9]+)([eE][+-]?[0-9]+)?'
+                        r'|[+-]?(INF|inf)|NaN|nan)\s*$')
 _integer_re = re.compile(r'^\s*[+-]?[0-9]+\s*$')
 _integer_b_re = re.compile(br'^\s*[+-]?[0-9]+\s*$')
 _duration_re = re.compile(
@@ -365,6 +367,14 @@ class InProtocolBase(ProtocolMixin):
                                     string.decode(self.default_string_encoding))
 
     def double_from_bytes(self, cls, string):
+        # float() is more liberal than the lexical space of xs:double: it also
+        # accepts digit group separators ('1_0') and non-ascii digits.
+        if isinstance(string, six.binary_type):
+            string = string.decode('ascii', 'replace')
+        if isinstance(string, six.text_type) and \
+                                              _double_re.match(string) is None:
+            raise ValidationError(string, "Could not cast %r to double")
+
         try:
             return float(string)
         except (TypeError, ValueError) as e:
